@@ -100,6 +100,9 @@ def msp430_doubleop(obj, data, Sreg, Ad, As, Dreg):
 @ispec("*<[ ~data(*) 0001 00 011 .BW(1) Ad(2) DSreg(4) ]", mnemonic="SXT")
 @ispec("*<[ ~data(*) 0001 00 100 .BW(1) Ad(2) DSreg(4) ]", mnemonic="PUSH")
 def msp430_singleop(obj, data, Ad, DSreg):
+    if obj.BW and obj.mnemonic in ("SWPB", "SXT"):
+        # word-only instructions (B/W bit must be 0)
+        raise InstructionError(obj)
     opd, data = getopd(obj, Ad, DSreg, data)
     obj.operands = [opd]
     obj.type = type_data_processing
@@ -108,6 +111,9 @@ def msp430_singleop(obj, data, Ad, DSreg):
 @ispec("*<[ ~data(*) 0001 00 101 .BW(1) Ad(2) DSreg(4) ]", mnemonic="CALL")
 @ispec("*<[ ~data(*) 0001 00 110 .BW(1) Ad(2) DSreg(4) ]", mnemonic="RETI")
 def msp430_singleop(obj, data, Ad, DSreg):
+    if obj.BW:
+        # word-only instructions (B/W bit must be 0)
+        raise InstructionError(obj)
     opd, data = getopd(obj, Ad, DSreg, data)
     obj.operands = [opd]
     obj.type = type_control_flow
